@@ -88,7 +88,7 @@ def run_cases_for(chk):
                     for vec in ((False,) if chk.tier == "quick" and cutoff else (False, True)):
                         cases.append(dict(tag=f"{t}/{solver}/{T}/{dt}/{dts}/{cutoff}", features=dict(f, solver=solver, T=T, dt=dt, dts=dts, cutoff=cutoff),
                                           model=m, solver=solver, T=T, dt=dt, dts=dts, vec=vec, cutoff=cutoff))
-        for method in (("RK45",) if chk.tier == "quick" else ("RK45", "DOP853", "LSODA")):
+        for method in (("RK45", "DOP853") if chk.tier == "quick" else ("RK45", "DOP853", "LSODA", "Radau")):
             for vec in (False, True):
                 cases.append(dict(tag=f"{t}/scipy-{method}", features=dict(f, solver="scipy", method=method), model=m, solver="scipy",
                                   method=method, T=1.0, dt=0.01, dts=0.1, vec=vec))
@@ -113,7 +113,7 @@ def run_cases_for(chk):
         chk, "run-vs-spec-iterates", cases, run_case, site="C03/run",
         rule="models F1/F2/F6/F7/F8 x euler/heun x (T, dt, dts) grid with dts/dt in {1,2,3,5} x cut-offs (off-grid and on-grid) x "
              "vectorize off/on: row count, index, first row and every value against spec_fixed_step(spec_rhs) at rtol 1e-7; scipy "
-             "RK45 (thorough: DOP853, LSODA) against a tight DOP853 reference on spec_rhs; distinct = distinct (model, solver, T, dt, dts, cutoff, vectorize)",
+             "RK45 and DOP853 (thorough: + LSODA, Radau) against a tight DOP853 reference on spec_rhs; distinct = distinct (model, solver, T, dt, dts, cutoff, vectorize)",
         sample_of=lambda c: {k: v for k, v in c.items() if k not in ("model", "features")})
     driver.run_sequences(chk, "run-vs-spec-iterates-in-sequence", cases, results, run_case, site="C03/run",
                          limit=15 if chk.tier == "quick" else 100, seed=chk.seed)
